@@ -106,6 +106,24 @@ fn decode_list(t: &mut Tape, alphabet: usize) -> L<u8> {
     out
 }
 
+/// mostly small alphabets (collisions between the two lists are frequent), sometimes up to 150 items
+/// so that size thresholds (16, 32, 64, 128) are crossed
+fn decode_alphabet(t: &mut Tape) -> usize {
+    match t.weighted(&[6, 2, 1]) {
+        0 => 1 + t.choose(12),
+        1 => 13 + t.choose(30),
+        _ => 43 + t.choose(108),
+    }
+}
+
+fn word(x: u8) -> String {
+    if (x as usize) < WORDS.len() {
+        WORDS[x as usize].to_string()
+    } else {
+        format!("w{}", x)
+    }
+}
+
 const WORDS: &[&str] = &["a", "b", "id", "name", "xmlns:x", "type", "é", "a-b", "A", "", "x:y", "名"];
 
 impl Property for C15 {
@@ -113,7 +131,7 @@ impl Property for C15 {
         "C15"
     }
     fn tape_sizes(&self) -> (usize, usize, usize) {
-        (64, 0, 0)
+        (400, 0, 0)
     }
     fn cases(&self, tier: Tier) -> u64 {
         match tier {
@@ -123,10 +141,16 @@ impl Property for C15 {
     }
     fn check(&self, tapes: &Tapes, st: &mut Stats) -> Result<(), Failure> {
         let mut t = Tape::new(&tapes.a);
-        let alphabet = 1 + t.choose(12);
+        let alphabet = decode_alphabet(&mut t);
         let strings = t.chance(128);
         let a = decode_list(&mut t, alphabet);
         let b = decode_list(&mut t, alphabet);
+        if a.len().max(b.len()) > 16 {
+            st.count("sampled.list_longer_than_16");
+        }
+        if a.len().max(b.len()) > 64 {
+            st.count("sampled.list_longer_than_64");
+        }
         if nontrivial(&a, &b) {
             st.nontrivial(hash_of(&(&a, &b, strings)));
             st.count("sampled.nontrivial");
@@ -134,7 +158,7 @@ impl Property for C15 {
         st.count(if strings { "sampled.payload_string" } else { "sampled.payload_u8" });
         st.sample(|| json!({"first": format!("{:?}", a), "second": format!("{:?}", b), "payload": if strings {"String"} else {"u8"}}));
         if strings {
-            let f = |l: &L<u8>| -> L<String> { l.iter().map(|(m, x)| (*m, WORDS[*x as usize].to_string())).collect() };
+            let f = |l: &L<u8>| -> L<String> { l.iter().map(|(m, x)| (*m, word(*x))).collect() };
             check_pair(&f(&a), &f(&b))
         } else {
             check_pair(&a, &b)
@@ -200,7 +224,7 @@ impl Property for C15 {
         check_pair(&f(&payload["first"]), &f(&payload["second"]))
     }
     fn rule(&self) -> String {
-        "exhaustive: all ordered pairs of duplicate-free tagged lists over an alphabet of 4 (quick) / 5 (thorough) items; sampled: tape-decoded pairs over alphabets of 1..12 items with u8 and String payloads. Non-trivial = at least two items occur only in the second list, or some shared item carries differing tags. distinct_nontrivial = enumerated non-trivial pairs (distinct by construction) + distinct hashes of sampled non-trivial pairs.".into()
+        "exhaustive: all ordered pairs of duplicate-free tagged lists over an alphabet of 4 (quick) / 5 (thorough) items; sampled: tape-decoded pairs over alphabets of 1..12 (two in three), 13..42 or 43..150 items with u8 and String payloads. Non-trivial = at least two items occur only in the second list, or some shared item carries differing tags. distinct_nontrivial = enumerated non-trivial pairs (distinct by construction) + distinct hashes of sampled non-trivial pairs.".into()
     }
     fn assumptions(&self) -> Vec<String> {
         vec![
@@ -210,7 +234,7 @@ impl Property for C15 {
     }
     fn describe(&self, tapes: &Tapes) -> Value {
         let mut t = Tape::new(&tapes.a);
-        let alphabet = 1 + t.choose(12);
+        let alphabet = decode_alphabet(&mut t);
         let strings = t.chance(128);
         let a = decode_list(&mut t, alphabet);
         let b = decode_list(&mut t, alphabet);
@@ -220,6 +244,6 @@ impl Property for C15 {
         true
     }
     fn health(&self, _tier: Tier) -> Vec<(&'static str, u64)> {
-        vec![("sampled.nontrivial", 1000), ("exhaustive.nontrivial", 1000)]
+        vec![("sampled.nontrivial", 1000), ("exhaustive.nontrivial", 1000), ("sampled.list_longer_than_16", 1000), ("sampled.list_longer_than_64", 200)]
     }
 }
